@@ -89,6 +89,7 @@ type FuncContract struct {
 	Asserts   []AssertAt
 	Where     string
 	Split     *SplitSpec
+	Cases     []Clause // the whole function is verified once per case (extra entry assumption); exhaustiveness is an obligation
 	Trusted   bool // assumed contract on a function of the repository (listed in the evidence)
 }
 
@@ -175,7 +176,7 @@ func mkClause(rest, where string) (Clause, error) {
 
 var topKeywords = map[string]bool{"func": true, "extern": true, "trusted": true, "define": true, "declare": true, "axiom": true, "lemma": true, "ghost": true, "smt": true, "end": true}
 var fnKeywords = map[string]bool{"mode": true, "requires": true, "ensures": true, "panics_iff": true, "may_panic": true, "loop": true,
-	"modifies": true, "uses": true, "opt": true, "ghost": true, "on": true, "pure": true, "terminal": true, "prop": true, "assume": true, "assert": true, "vars": true, "assumed": true, "split": true}
+	"modifies": true, "uses": true, "opt": true, "ghost": true, "on": true, "pure": true, "terminal": true, "prop": true, "assume": true, "assert": true, "vars": true, "assumed": true, "split": true, "cases": true}
 
 // loadContractFile parses one file. goFile: lines are taken from "//@" comments.
 func (cs *Contracts) loadFile(path string, goFile bool) error {
@@ -462,6 +463,14 @@ func (cs *Contracts) loadFile(path string, goFile bool) error {
 				return fmt.Errorf("%s: bad split bounds", where)
 			}
 			cur.Split = &SplitSpec{fs[0], lo, hi}
+		case "cases":
+			for _, part := range strings.Split(rest, " | ") {
+				c, err := mkClause(part, where)
+				if err != nil {
+					return err
+				}
+				cur.Cases = append(cur.Cases, c)
+			}
 		case "pure":
 			cur.Pure = true
 		case "terminal":
